@@ -844,7 +844,10 @@ func (g *gen) typedStream() {
 			if !o.panic && (o.ok != wantOK || (o.ok && o.val.Cmp(wantV) != 0)) {
 				g.rep.Fail("c04-bigint-value", fmt.Sprintf("*big.Int %s p=%s: got %v ok=%v", z, p, o.val, o.ok), in)
 			}
-			if z.IsInt64() && p.Cmp(constants.Q) == 0 {
+			// Go-typed int64 under every hasher (the small-prime hashers hand out their stored modulus: an in-place
+			// computation on Prime()'s result shows in the following cases and in the final modulus comparison);
+			// mkValueInt has no range check (observation O2): the model mirrors that, no impl-side expectation
+			if z.IsInt64() {
 				in := &Input{Kind: "mk", Hasher: hi, GoKind: "xint64", Int: z}
 				g.add(in)
 			}
